@@ -191,7 +191,7 @@ fn registry() -> Vec<CheckDef> {
         id: "C04",
         level: "exploration",
         workers: 16,
-        rule: "proptest-generated program sets: 2-3 participants x 1-3 operations from {set, put, get (read at once or holding the handle), touch} through plain::Cache, or the same plus ensure through a Cache with that plain writer, all on ONE key of a plain directory with capacity 2^40 (no eviction), key initially present or absent, cache directory initially present or missing, shared or separate handles; for every program set ALL single-preemption schedules + generated random-walk and PCT schedules; each execution's call/return history must admit a linearization against the register specification (Wing-Gong search; ensure = get, on miss put, get as three atomic sub-steps inside its interval); non-trivial = at least two operations overlap in time and one of them writes; distinct by hash of (layout, programs, picks)",
+        rule: "proptest-generated program sets: 2-3 participants x 1-3 operations from {set, put, raw-layer put, set of a value staged on another filesystem (rename fails with EXDEV: it may fail, but a reported success counts as a set), get (read at once or holding the handle), touch} through plain::Cache, or the same plus ensure through a Cache with that plain writer, all on ONE key of a plain directory with capacity 2^40 (no eviction), key initially present or absent, cache directory initially present or missing, shared or separate handles; for every program set ALL single-preemption schedules + generated random-walk and PCT schedules; each execution's call/return history must admit a linearization against the register specification (Wing-Gong search; ensure = get, on miss put, get as three atomic sub-steps inside its interval); non-trivial = at least two operations overlap in time and one of them writes; distinct by hash of (layout, programs, picks)",
         run: kvlib::c04::run,
         replay: kvlib::c04::replay,
         assumptions: &["call/return events are totally ordered by a global counter; exactly one participant runs between two scheduling points", "an operation that returns Err makes no claim (it may or may not have taken effect); such errors are counted and left to C05", "a lookup that holds its handle linearizes at the open, the content being determined by the inode it opened"],
